@@ -4,6 +4,7 @@ Used by the oracle and by the property theorems, so that both speak about the tr
 -/
 import Gotlcp.Model.CodecDtlcp
 import Gotlcp.Model.CodecEmitted
+import Gotlcp.Model.CodecMake
 import Gotlcp.Generated.Facts
 
 namespace Gotlcp.Model.Codec
@@ -95,3 +96,25 @@ def paramsD : EmitParams where
   finishedLen := Facts.dtlcp.finishedVerifyLength
 
 end Gotlcp.Model.Emitted
+
+namespace Gotlcp.Model.Make
+open Gotlcp
+
+/-- `defaultCipherSuites = cipherSuitesPreferenceOrder[:len(order) - len(disabledCipherSuites)]` -/
+def makeT : MakeParams where
+  ecdhe := [Facts.tlcp.ECDHE_SM4_GCM_SM3, Facts.tlcp.ECDHE_SM4_CBC_SM3]
+  sigSuites := [Facts.tlcp.ECDHE_SM4_GCM_SM3, Facts.tlcp.ECDHE_SM4_CBC_SM3, Facts.tlcp.ECC_SM4_CBC_SM3, Facts.tlcp.ECC_SM4_GCM_SM3]
+  defaultSuites := Facts.tlcp.preferenceOrder.take (Facts.tlcp.preferenceOrder.length - Facts.tlcp.disabledSuites.length)
+  curveSM2 := Facts.tlcp.emit_CurveSM2
+  taHashLen := Facts.tlcp.emitTAHashLenChecked
+  taHashTypes := [Facts.tlcp.IdentifierTypeKeySM3Hash, Facts.tlcp.IdentifierTypeCertSM3Hash]
+
+def makeD : MakeParams where
+  ecdhe := [Facts.dtlcp.ECDHE_SM4_GCM_SM3, Facts.dtlcp.ECDHE_SM4_CBC_SM3]
+  sigSuites := [Facts.dtlcp.ECDHE_SM4_GCM_SM3, Facts.dtlcp.ECDHE_SM4_CBC_SM3, Facts.dtlcp.ECC_SM4_CBC_SM3, Facts.dtlcp.ECC_SM4_GCM_SM3]
+  defaultSuites := Facts.dtlcp.preferenceOrder.take (Facts.dtlcp.preferenceOrder.length - Facts.dtlcp.disabledSuites.length)
+  curveSM2 := Facts.dtlcp.emit_CurveSM2
+  taHashLen := Facts.dtlcp.emitTAHashLenChecked
+  taHashTypes := [Facts.dtlcp.IdentifierTypeKeySM3Hash, Facts.dtlcp.IdentifierTypeCertSM3Hash]
+
+end Gotlcp.Model.Make
